@@ -1,0 +1,25 @@
+//go:build verif
+
+// Package verifx re-exports internal helpers for the out-of-tree verification harness.
+package verifx
+
+import (
+	"net/http"
+
+	"github.com/nais/wonderwall/internal/crypto"
+	httpinternal "github.com/nais/wonderwall/internal/http"
+)
+
+type Crypter = crypto.Crypter
+
+const KeySize = crypto.KeySize
+
+func NewCrypter(key []byte) Crypter { return crypto.NewCrypter(key) }
+
+func IsNavigationRequest(r *http.Request) bool { return httpinternal.IsNavigationRequest(r) }
+
+func HasSecFetchMetadata(r *http.Request) bool { return httpinternal.HasSecFetchMetadata(r) }
+
+func Accepts(r *http.Request, accepted ...string) bool { return httpinternal.Accepts(r, accepted...) }
+
+func Attributes(r *http.Request) map[string]any { return httpinternal.Attributes(r) }
